@@ -139,7 +139,8 @@ def distribute_body(S, cfg):
     o.group_data[:, 2] = labels
     o.t_in = S.pos('t_in', 600.0, 650.0)
     o._dp_limit = np.zeros(n_groups)
-    o._parametric = {'asm_ids': np.array([[i, 0] for i in range(n)]), 'data': []}
+    types = cfg.get('types', [0] * n)        # assembly type of each assembly: each type has its own flow at the limit
+    o._parametric = {'asm_ids': np.array([[i, types[i]] for i in range(n)]), 'data': []}
     # estimates of the optimisation variable (a peak temperature): above the inlet temperature
     exc = S.vec('optvar_excess', n, 'pos', 50.0, 250.0)
     est = np.array([o.t_in + e for e in exc], dtype=object if S.mode == 'sym' else float)
@@ -152,7 +153,10 @@ def distribute_body(S, cfg):
     m = np.array([per_group[l] if l < n_groups - 1 else last for l in labels], dtype=object if S.mode == 'sym' else float)
     d_optvar = S.vec('d_optvar', n_groups, 'pos', 0.8, 1.2)
     limited = cfg.get('limit', False)
-    m_lim = np.array([S.pos('m_lim', 5.0, 12.0)], dtype=object if S.mode == 'sym' else float) if limited else None
+    m_lim = None
+    if limited:
+        m_lim = np.array([S.pos('m_lim' if t == 0 else f'm_lim{t}', 5.0, 12.0) for t in range(max(types) + 1)],
+                         dtype=object if S.mode == 'sym' else float)
     cut = loopcut.Cut(orificing.Orificing.distribute, 0, kind='While')
     S.note(f'loop cut from source: `{cut.source.splitlines()[0]}`')
     env = dict(self=o, m=m, m_total=m_total, m_lim=m_lim, d_optvar=d_optvar, xy=[], res_prev=None, ratio=1.0,
@@ -167,10 +171,10 @@ def distribute_body(S, cfg):
     if limited:
         for i, l in enumerate(labels):
             if l < n_groups - 1:
-                S.le(f'distribute.dp_limit[{i}]', m2[i], m_lim[0])
+                S.le(f'distribute.dp_limit[{i}]', m2[i], m_lim[types[i]])
             else:
                 # the last group receives the remainder
-                S.le(f'distribute.dp_limit_last_group[{i}]', m2[i], m_lim[0])
+                S.le(f'distribute.dp_limit_last_group[{i}]', m2[i], m_lim[types[i]])
     S.holds('distribute.iter_advances', env['iter'] == 1)
     S.eq('canary.mass_lost', sum(m2) + m2[0], m_total, canary=True)
 distribute_body.cname = 'Orificing.distribute/loop-body'
@@ -210,6 +214,8 @@ def configs(tier):
            (distribute_body, dict(n_groups=2, labels=[0, 0, 1])),
            (distribute_body, dict(n_groups=2, labels=[0, 0, 1], limit=True)),
            (distribute_body, dict(n_groups=3, labels=[0, 1, 1, 2])),
+           (distribute_body, dict(n_groups=2, labels=[0, 0, 1], types=[0, 1, 0], limit=True)),
+           (distribute_body, dict(n_groups=3, labels=[0, 0, 1, 1, 2], types=[1, 0, 0, 2, 1], limit=True)),
            (distribute_suffix, dict(m=[4.0, 4.0, 2.0], dp_limit=[0, 0], ok=True)),
            (distribute_suffix, dict(m=[6.0, 6.0, 3.0], dp_limit=[0, 0], ok=False)),
            (distribute_suffix, dict(m=[4.0, 4.0, 2.0], dp_limit=[1, 1], ok=False)),
